@@ -1042,6 +1042,13 @@ func (g *schemaGenerator) generateEnumType(t *schemas.Type, scope nameScope) (co
 		return nil, errEnumArrCannotBeEmpty
 	}
 
+	for _, v := range t.Enum {
+		switch v.(type) {
+		case map[string]interface{}, []interface{}:
+			return nil, fmt.Errorf("%w %v", errEnumNonPrimitiveVal, v)
+		}
+	}
+
 	var wrapInStruct bool
 
 	var enumType codegen.Type
